@@ -183,7 +183,7 @@ Proof. intros st T. unfold rt_fire_all. apply rt_fire_enough; [exact T|lia]. Qed
 Lemma rt_step_tinv : forall st ev, rt_ev_ok ev -> rt_tinv st ->
   rt_tinv (fst (rt_step st ev)) /\ ~ In RoFuel (snd (rt_step st ev)).
 Proof.
-  intros st ev Hev T. destruct ev as [dt|s m b cfg r| |s m|s m|]; cbn [rt_step].
+  intros st ev Hev T. destruct ev as [dt|s m b cfg r| |s m|s m|s m tok|]; cbn [rt_step].
   - cbn [fst snd]. split; [|intros []]. destruct T as (W & B & F).
     split; [exact W|]. split; [|exact F]. cbn. intros X. specialize (B X). cbn in Hev. lia.
   - unfold rt_send. cbn [fst snd]. split.
@@ -222,6 +222,19 @@ Proof.
     + pose proof (rt_fire_all_ok _ T) as H. destruct (rt_fire_all st) as [st1 o].
       destruct H as (NF & _ & T2 & _). cbn [fst snd]. split; [exact T2|].
       intros [I|I]; [discriminate|exact (NF I)].
+  - unfold rt_non.
+    pose proof (rt_nodes_cancel (rt_tok_match s tok) (rs_q st)) as P.
+    pose proof (sq_cancel_wf (rt_tok_match s tok) (rs_q st)) as Wc.
+    destruct (sq_cancel (rt_tok_match s tok) (rs_q st)) as [rm q'] eqn:Ec. cbn [fst snd] in *.
+    assert (T1 : rt_tinv (rt_set_q st q')).
+    { destruct T as (W & B & F). apply rt_set_q_tinv; [split; [exact W|split; [exact B|exact F]]| | |].
+      - apply Wc. exact W.
+      - intros X Y. rewrite Y in Ec. cbn in Ec. inversion Ec; subst. contradiction.
+      - eapply Permutation_Forall in F; [|exact P]. apply Forall_app in F. tauto. }
+    pose proof (rt_fire_all_ok _ T1) as H. destruct (rt_fire_all (rt_set_q st q')) as [st1 o].
+    destruct H as (NF & _ & T2 & _). cbn [fst snd]. split; [exact T2|].
+    intros I. apply in_app_or in I. destruct I as [I|I]; [|exact (NF I)].
+    apply in_map_iff in I. destruct I as (x & X & _). discriminate.
   - cbn [fst snd]. split; [exact T|]. intros [X|[]]; discriminate.
 Qed.
 
